@@ -269,7 +269,15 @@ func (a *aliasAnalysis) analyse(fn *ssa.Function) bool {
 					}
 					set(x, o)
 				case *ssa.Slice:
-					set(x, get(x.X))
+					o := get(x.X)
+					// tpl[:] of a package-level byte array (or of a field / element of a package-level variable): a window
+					// onto storage every caller shares
+					if g := globalBase(x.X); g != nil && g.Pkg != nil && load.InModule(g.Pkg.Pkg) && !strings.Contains(g.Type().String(), "Pool") {
+						if sl, isSl := x.Type().Underlying().(*types.Slice); isSl && isByte(sl.Elem()) {
+							o.global = true
+						}
+					}
+					set(x, o)
 				case *ssa.ChangeType:
 					set(x, get(x.X))
 				case *ssa.ChangeInterface:
@@ -558,4 +566,21 @@ func (a *aliasAnalysis) call(fn *ssa.Function, v *ssa.Call, cc *ssa.CallCommon, 
 			}
 		}
 	}
+}
+
+// globalBase: the package-level variable an address leads back to through field and element addresses (nil if none).
+func globalBase(v ssa.Value) *ssa.Global {
+	for i := 0; i < 6; i++ {
+		switch x := v.(type) {
+		case *ssa.Global:
+			return x
+		case *ssa.FieldAddr:
+			v = x.X
+		case *ssa.IndexAddr:
+			v = x.X
+		default:
+			return nil
+		}
+	}
+	return nil
 }
